@@ -505,7 +505,17 @@ func runArbitrary(c *Ctx) {
 		cfg.WithJSON = c.rng.Chance(20)
 		cfg.WithBQ = c.rng.Chance(10)
 		tc := pickType(c, cfg, 1+c.rng.Intn(2))
+		// the JSON-any decoders read a format of their own: a share of the targets is theirs
+		jsonish := false
+		if i%8 == 5 {
+			cfg.WithJSON = true
+			tc = newTypeCase(catalogueJSON[(i/8)%len(catalogueJSON)], cfg)
+			jsonish = true
+		}
 		d := 2
+		if jsonish {
+			d = 1
+		}
 		// valid encodings of this type
 		var valid [][]byte
 		for j := 0; j < 4; j++ {
@@ -599,6 +609,29 @@ func runArbitrary(c *Ctx) {
 				run(append(append([]byte{tg, 0x01}, h...), 1, 2, 3), "huge-entry-length")
 				run(append(append([]byte{tg}, h...), h...), "huge-count-and-length")
 				run(append(append([]byte{tg, 0x02, 0x01, 0x05}, h...), 9), "huge-second-entry")
+			}
+		}
+		// every single-byte varint of a short valid encoding replaced by values at the int/int64 conversion
+		// boundaries (type codes, indexes, lengths, counts and scalar values alike)
+		for _, data := range valid {
+			if len(data) == 0 || len(data) > 48 {
+				continue
+			}
+			npos := 6
+			if jsonish {
+				npos = len(data)
+			}
+			for k := 0; k < npos; k++ {
+				pos := k
+				if !jsonish {
+					pos = c.rng.Intn(len(data))
+				}
+				if data[pos] >= 0x80 {
+					continue
+				}
+				for _, h := range huge[1:3] {
+					run(append(append(append([]byte{}, data[:pos]...), h...), data[pos+1:]...), "varint-substituted")
+				}
 			}
 		}
 		// the same fields arriving in both slice forms (counted and repeated), in either order,
